@@ -34,6 +34,9 @@ def e_insert(rng, text, lang, protect_top=0):
     if rng.random() < 0.75:
         inserts += [i for i in after_jump if rng.random() < 0.35]  # each of them on its own: a file has few, and each is a distinct situation
         inserts += rng.sample(before_brace, min(len(before_brace), rng.randint(0, 2)))
+    nonascii_first = rng.random() < 0.6
+    if nonascii_first and lo <= n:
+        inserts.append(lo)
     inserts = sorted(set(inserts))
     out, shift_at = [], []
     k = 0
@@ -44,11 +47,15 @@ def e_insert(rng, text, lang, protect_top=0):
                 k += 1
                 continue
             kind = rng.random()
+            if not shift_at and nonascii_first:
+                kind = 0.41  # the first inserted line is a comment with non-ASCII words: every later byte offset differs from its character offset by a new amount
             ind = re.match(r"\s*", ln).group(0)
             if kind >= 0.4 and lang != "py" and rng.random() < 0.3:
                 out.append("%s/* note %d */" % (ind, rng.randint(100, 999)))  # a one-line block comment is a comment line too
             else:
                 words = rng.choice(["note", "note", "r\u00e9sum\u00e9 des donn\u00e9es", "\u6570\u636e \u2192 \u00fcber", "caf\u00e9 \U0001f600"])  # comment text is free text, not only ASCII
+                if not shift_at and nonascii_first:
+                    words = rng.choice(["r\u00e9sum\u00e9 des donn\u00e9es", "\u6570\u636e \u2192 \u00fcber", "caf\u00e9 \U0001f600"])
                 out.append("" if kind < 0.25 else ind if kind < 0.4 else "%s%s %s %d" % (ind, CM[lang], words, rng.randint(100, 999)))
             shift_at.append(i)
             k += 1
@@ -221,6 +228,10 @@ def make_base(rng, idx):
         files.update(t)
         cmds = [c for c in triggers.CMDS if c != "file-placement"]
         names_matter = True
+    if idx % 2 == 1:
+        # every second base is pure ASCII, so that an inserted non-ASCII comment is the FIRST character whose byte length differs from 1
+        # (a base that already has such characters is equally affected before and after the edit: the relation cannot see that)
+        files = {f: t.encode("ascii", "ignore").decode("ascii") for f, t in files.items()}
     return {"idx": idx, "kind": kind, "files": files, "cfg": cfg, "cmds": cmds}
 
 
